@@ -4,29 +4,32 @@ PROP = {
     "level": "proof",
     "harness_cmd": "c01",
     "run_file": "Run/C01Run.v",
-    "obligation_files": ["Props/C01.v", "Sem/GenBuggyProofs.v", "Sem/GenProofs.v", "Sem/PinnedProofs.v"],
+    "obligation_files": ["Props/C01.v", "Sem/GenBuggyProofs.v", "Sem/GenProofs.v", "Sem/PinnedProofs.v", "Sem/FromText.v", "Syn/Lower.v",
+                         "Syn/TextToAst.v", "Syn/FullProofs.v", "Syn/FullRel.v", "Syn/Full.v", "Run/C01TextRun.v"],
     "harness_timeout": 3000,
     # lists of counts printed by every case file, summed over the shards into coverage.correspondence.coq_counts
     "count_lists": {"c01_counts": ["M_compared", "M_skipped_unsupported", "M_skipped_out_of_fuel", "M_skipped_laziness",
                                    "S_compared_both_optimizer_settings", "S_skipped_unsupported", "S_skipped_out_of_fuel",
                                    "S_skipped_laziness", "S_excluded_redeclaration",
                                    "cases_where_hypotheses_of_C01_generated_hold", "cases_Generate_rejects",
-                                   "cases_outside_side_ok"]},
+                                   "cases_outside_side_ok"],
+                    "c01t_counts": ["text_to_ast_agree", "text_to_ast_outside_lower"]},
     "trusted_base": [KERNEL, TABLES, HARNESS, NOAX,
                      "modelled, not verified against the Go source: coq/Sem/Gen.v (GenerateFunc fused with execution on the shared stack), coq/Sem/Ops.v and coq/Sem/Lib.v (operators and the pool of built-ins) are hand-written after funcGen/generator.go, value/value.go, value/operations.go and tied to the code by the three-way correspondence run on every check",
                      "the harness's own scope tracking when it translates its surface tree to a Coq ast (an unbound identifier that names a static function in call position is a static call) and its renderer; a mistake there shows as a disagreement, not as a hidden defect",
-                     "the AST dump of the real parser (harness/c01.go dumpAst) reads only exported fields of parser2's AST nodes"],
+                     "the AST dump of the real parser (harness/c01.go dumpAst) reads only exported fields of parser2's AST nodes",
+                     "coq/Syn/Lower.v (parser AST of Syn/Ast.v -> semantic AST of Sem/Syntax.v: operator spellings kept, IsFunc callee = static call, constants through ParseNumber / FromString / the constant table; numbers only where the decimal is exactly a binary64 value) and the concrete value configuration (value_pcfg from the regenerated operator tables, value_ids, keyword list of value_tcfg) are hand-written; they are tied to the code by the text-to-ast condition of the run: on every generated program the parser model on the REAL tokens, lowered, must equal the AST the real parser built (signature text-to-ast)"],
     "assumptions": ["floats: only results that are exactly representable are compared (the model answers `unsupported` for inexact operations and the case is counted as skipped)",
                     "programs that redeclare a name inside one function body, random/randomConst, overflow of ^, out-of-range float-to-int conversion are excluded as the property states",
                     "lists are eager in the model: when the model reports an error, the implementation a value, and the program contains a lazy stage (map/accept), the case is counted as skipped (laziness); callbacks of lazy stages are generated total"],
     "residue": "",
-    "correspondence_only": ["text -> AST (tokenizer and parser: the model starts from the AST the real parser produced; the specification side starts from the harness's own tree)",
+    "correspondence_only": ["text -> AST of the REAL code: the tokenizer and parser models are tied to the code by C15 / C03 / the text-to-ast condition (tokens from the real tokenizer -> parser model -> lower = dumped AST of the real parser); C01_from_text composes the MODELS (tokenizer, parser, lowering, generator) against the reference semantics",
                             "built-in methods and static functions outside the pool of coq/Sem/Lib.v (the model answers `unsupported`)"],
 }
 
 MANIFEST = {
-    "text": "Theorems (Coq, all programs, all fuel, all frames; Props/C01.v): exec_sim - the generator model (Sem/Gen.v: compile-time slot indices, shared value stack with reserved slots for pending arguments, closure contexts) refines the lexically scoped reference semantics (Sem/Ref.v) in lock-step and leaves the caller's frame untouched; C01_from_ast / C01_generated - Generate then Eval equals the reference for every AST that gen_check accepts (plus the decidable side condition side_ok); call_frame_independent; exec_sim_pinned_refuted and C01_pinned_discipline_refuted - the call-site discipline of the pinned commit violates the statement (505 instead of 506 on the probed program); C01_tables_ok - the arity tables of the models agree with the tables regenerated from value.New(). Three-way correspondence on every run: implementation (optimizer on and off) vs generator model on the AST dumped from the REAL parser vs reference semantics on the harness's own unannotated tree, over type-directed programs with binders boosted inside call, method and literal arguments; the run checks gen_check/side_ok on every dumped AST (hypotheses of C01_generated) and that Generate fails exactly when the model says so.",
+    "text": "Theorems (Coq, all programs, all fuel, all frames; Props/C01.v): exec_sim - the generator model (Sem/Gen.v: compile-time slot indices, shared value stack with reserved slots for pending arguments, closure contexts) refines the lexically scoped reference semantics (Sem/Ref.v) in lock-step and leaves the caller's frame untouched; C01_from_ast / C01_generated - Generate then Eval equals the reference for every AST that gen_check accepts (plus the decidable side condition side_ok); call_frame_independent; exec_sim_pinned_refuted and C01_pinned_discipline_refuted - the call-site discipline of the pinned commit violates the statement (505 instead of 506 on the probed program); C01_tables_ok - the arity tables of the models agree with the tables regenerated from value.New(). Three-way correspondence on every run: implementation (optimizer on and off) vs generator model on the AST dumped from the REAL parser vs reference semantics on the harness's own unannotated tree, over type-directed programs with binders boosted inside call, method and literal arguments; C01_from_text / C01_from_text_tokens / C01_text_layout_irrelevant - for every well-formed layout of a well-formed program of the full grammar the function generated FROM THE TEXT (tokenizer model, parser model, lowering, generator model) agrees with the reference semantics of its AST, and layout does not matter; the run checks on every generated program that the parser model on the real tokens, lowered, is the AST the real parser built; the run checks gen_check/side_ok on every dumped AST (hypotheses of C01_generated) and that Generate fails exactly when the model says so.",
     "design_ref": "DESIGN.md section 6 C01",
-    "note": "Text -> AST (tokenizer, parser, OuterIdents/Recursive annotations, const-let propagation; T2/T3 of the design) is covered by correspondence only: the specification side starts from the generator's own tree, the model from the dumped parser AST. Operators and built-ins (Sem/Ops.v, Sem/Lib.v) are shared by both semantics, their fidelity to the Go code is C07/C14's business and the run's. Trusted: Coq kernel + VM, table hooks, the Go harness (generator, renderer, scope tracking for static calls, canonicalisation).",
+    "note": "Text -> AST (T2/T3 of the design): C01_from_text composes the tokenizer model, the full-grammar parser completeness (OuterIdents/Recursive annotations, const-let propagation), Syn/Lower.v and C01_generated; the models are tied to the real tokenizer/parser by the correspondence runs of C15, C03 and the text-to-ast condition of this run. Operators and built-ins (Sem/Ops.v, Sem/Lib.v) are shared by both semantics, their fidelity to the Go code is C07/C14's business and the run's. Trusted: Coq kernel + VM, table hooks, the Go harness (generator, renderer, scope tracking for static calls, canonicalisation).",
     "technique": "Coq model + simulation proof + vm_compute three-way correspondence run (implementation / generator model / reference semantics) + table obligations",
 }
